@@ -532,7 +532,7 @@ package vm
 //@   requires runInv(vm, b)
 //@   requires session(vm)
 //@   requires[C08] lockstep(vm)
-//@   modifies everything except f:engine., ghost:written, ghost:flagcount, f:render.Sizer.outputSize, f:state.State.Code, f:state.State.Flags, f:state.State.BitSize
+//@   modifies everything except f:engine., f:render.Sizer.outputSize, f:state.State.Code, f:state.State.Flags, f:state.State.BitSize, f:state.State.input, count(extcalls), count(codegets)
 //@   ensures @vm vmOk(vm)
 //@   ensures @nowrap noWrap(vm)
 //@   ensures @page render.pageOk(vm.pg)
@@ -541,7 +541,7 @@ package vm
 //@   ensures @session session(vm)
 //@   ensures[C08] @lockstep lockstep(vm)
 //@   ensures[C06,C20] @blocked old(fl(vm, state.FLAG_TERMINATE)) ==> result1 == nil && len(result0) == 0 && untouched(vm)
-//@   loop 1 modifies everything except f:engine., ghost:written, ghost:flagcount, f:render.Sizer.outputSize, f:state.State.Code, f:state.State.Flags, f:state.State.BitSize
+//@   loop 1 modifies everything except f:engine., f:render.Sizer.outputSize, f:state.State.Code, f:state.State.Flags, f:state.State.BitSize, f:state.State.input, count(extcalls), count(codegets)
 //@   loop 1 invariant @vm vmOk(vm)
 //@   loop 1 invariant @nowrap noWrap(vm)
 //@   loop 1 invariant @page render.pageOk(vm.pg)
@@ -563,7 +563,7 @@ package vm
 //@   serves C01
 //@   requires vmOk(vm) && noWrap(vm) && render.pageOk(vm.pg) && session(vm)
 //@   requires[C08] lockstep(vm)
-//@   modifies everything except f:engine., ghost:written, ghost:flagcount, f:render.Sizer.outputSize, f:state.State.Code, f:state.State.Flags, f:state.State.BitSize
+//@   modifies everything except f:engine., f:render.Sizer.outputSize, f:state.State.Code, f:state.State.Flags, f:state.State.BitSize, f:state.State.input, count(extcalls), count(codegets)
 //@   ensures @vm vmOk(vm)
 //@   ensures @nowrap noWrap(vm)
 //@   ensures @page render.pageOk(vm.pg)
@@ -572,4 +572,26 @@ package vm
 //@   ensures[C08] @lockstep lockstep(vm)
 //@   ensures[C01] @fits result1 == nil && vm.sizer != nil && vm.sizer.outputSize > 0 ==> len(result0) <= int(vm.sizer.outputSize)
 //@   ensures[C01] @err result1 != nil ==> result0 == ""
-//@   ensures[C20] @clean !old(fl(vm, state.FLAG_DIRTY)) ==> result0 == "" && result1 == nil && untouched(vm)
+//@   ensures[C20,C17] @clean !old(fl(vm, state.FLAG_DIRTY)) ==> result0 == "" && result1 == nil && untouched(vm)
+
+// A new Vm over a consistent state and cache satisfies the VM invariant.
+//@ func NewVm
+//@   serves C01
+//@   requires st != nil && state.flagsOk(st) && rs != nil && memOk(ca) && memWf(ca) && count(flagcount) == int(st.BitSize)
+//@   requires st.input == nil || !sameBacking(st.input, st.Flags)
+//@   requires sizer != nil ==> render.sizerOk(sizer) && sizer.memberSizes != cac(ca).Sizes
+//@   modifies sizer.crsrs
+//@   ensures @new fresh(result) && result.st == st && result.ca == ca && result.rs == rs && result.sizer == sizer
+//@   ensures @vm vmOk(result) && render.pageOk(result.pg) && session(result)
+//@   ensures[C05,C07] @unmapped unmapped(result)
+
+// Input format check: the built-in pattern or one of the registered custom
+// patterns (assumed: a pure function of the input; regular expressions are
+// outside the verifier's reach).
+//@ ufun inputOk(s string) bool
+//@ func ValidInput
+//@   assumed
+//@   modifies count(rejected)
+//@   ensures (result1 == nil) == inputOk(str(input))
+// every refusal is counted (so that callers can say "whenever the check refused ...")
+//@   ensures (result1 == nil ==> count(rejected) == old(count(rejected))) && (result1 != nil ==> count(rejected) == old(count(rejected)) + 1)
